@@ -27,6 +27,7 @@ TABLES = [
         "w": (2, "float", -inf, inf, None),
         "q": (1, "float", 0.0, inf, 1.5),
         "mm": (2, "integer", [-2, 1], [2, 5], None),
+        "t3": (3, "float", [0.0, -1.0, 2.0], [1.0, 1.0, 6.0], [0.25, 0.5, 3.0]),
     },
     {
         "x": (1, "float", -2.0, 6.0, 1.0),
@@ -35,6 +36,7 @@ TABLES = [
         "w": (2, "float", -inf, 4.0, None),
         "q": (1, "float", -inf, inf, 0.25),
         "mm": (2, "integer", [0, -1], [8, 1], None),
+        "t3": (3, "float", [-1.0, 0.0, 10.0], [1.0, 4.0, 12.0], [0.5, 1.0, 11.5]),
     },
     {
         "x": (1, "float", 10.0, 10.5, 10.25),
@@ -43,10 +45,11 @@ TABLES = [
         "w": (2, "float", 0.0, inf, None),
         "q": (1, "float", -inf, inf, None),
         "mm": (2, "integer", [-6, 2], [-2, 4], None),
+        "t3": (3, "float", [2.0, -8.0, 0.0], [4.0, -6.0, 0.5], [2.5, -7.0, 0.125]),
     },
 ]
 TABLE = TABLES[0]
-START_KINDS = {"empty": [], "x": ["x"], "x,yy": ["x", "yy"], "x,yy,n_3": ["x", "yy", "n_3"], "yy,mm": ["yy", "mm"]}
+START_KINDS = {"empty": [], "x": ["x"], "x,yy": ["x", "yy"], "x,yy,n_3": ["x", "yy", "n_3"], "yy,mm": ["yy", "mm"], "t3,x": ["t3", "x"]}
 MAX_VARS = 3
 
 
@@ -103,9 +106,13 @@ class Spec:
             out.append(["set_ub", nm, "loose"])
             out.append(["set_lb", nm, "inf"])
             out.append(["set_ub", nm, "tight"])
-            if ds.get_size(nm) > 1:
+            if ds.get_size(nm) == 2:
                 out.append(["filter_dim", nm, [1]])
                 out.append(["filter_dim", nm, [0]])
+            elif ds.get_size(nm) > 2:  # kept != removed counts, non-contiguous and contiguous selections
+                out.append(["filter_dim", nm, [1]])
+                out.append(["filter_dim", nm, [0, 2]])
+                out.append(["filter_dim", nm, [1, 2]])
             out.append(["set_var", nm])
         if len(names) > 1:
             out.append(["filter", names[:1]])
@@ -475,13 +482,13 @@ def run(ctx):
     info = explore.bfs(spec, depth, ctx.tally, jobs=ctx.jobs)
     return {
         "level": LEVEL,
-        "rule": "BFS over histories of public DesignSpace mutators and cache-filling queries from 5 start spaces; "
+        "rule": "BFS over histories of public DesignSpace mutators and cache-filling queries from 6 start spaces; "
         "a history is non-trivial when it mixes at least one cache-filling query with at least one mutator; "
         "distinct = distinct operation histories",
         "exhaustive": True,
         "bounds": {"depth": depth, "max_variables": MAX_VARS, "starts": list(START_KINDS), **info},
         "assumptions": [
-            "value alphabet: one table of 6 variable definitions (3 tables rotated by VERIF_SEED)",
+            "value alphabet: one table of 7 variable definitions (sizes 1, 2 and 3) (3 tables rotated by VERIF_SEED)",
             "states merged by canonical form including the name-mangled normalization caches",
             "membership probes are integral on integer components (array-form integrality is not demanded)",
         ],
